@@ -534,8 +534,8 @@ func TestVP_C22_Burst(t *testing.T) {
 					// known-finding class: excluded from the asserted search, but still run so the evidence says
 					// what an undirected barrier burst does
 					vpExclude(key)
-					if n > capacity*2 && !vpThorough() {
-						continue
+					if !vpThorough() && (n > capacity*2 || c.name != "gzip") {
+						continue // quick tier: one observed-only natural burst (gzip, 1.5x capacity) is enough for the evidence
 					}
 					bad, _ := vpC22Burst(c, calls)
 					vpExtra("observed_only_overcapacity_burst_bad_results_"+c.name, int64(bad))
@@ -743,7 +743,7 @@ func TestVP_C22_BurstWriter(t *testing.T) {
 			}
 			if over && vpKnownOpen(key) {
 				vpExclude(key)
-				if n > capacity*2 && !vpThorough() {
+				if !vpThorough() {
 					continue
 				}
 				bad, _ := vpC22Burst(codecs[0], calls)
